@@ -2,12 +2,14 @@ package c14
 
 import (
 	"fmt"
+	"log/slog"
 	"sort"
 	"strings"
 	"testing"
 	"testing/synctest"
 	"time"
 
+	logging "github.com/libp2p/go-libp2p/gologshim"
 	"pgregory.net/rapid"
 
 	"verif/internal/hx"
@@ -15,6 +17,8 @@ import (
 )
 
 func TestMain(m *testing.M) {
+	// the manager logs every duplicate / unknown notification at error level; keep the shard logs readable
+	logging.SetDefaultHandler(slog.DiscardHandler)
 	stats.Describe("exploration",
 		"TestTrimModel: rapid state machine over a real BasicConnMgr in a synctest bubble (virtual clock) with fake connections that record "+
 			"CloseWithError; operations = Connected/Disconnected (several conns per peer, duplicates, unknown conns), TagPeer/UntagPeer/UpsertTag "+
@@ -238,13 +242,15 @@ func (w *world) flushClosed(rt *rapid.T, all bool) {
 // TestTrimModel is the sequential state machine.
 func TestTrimModel(t *testing.T) {
 	name := t.Name()
-	hx.Check(t, 3000, 150000, 45, func(rt *rapid.T) {
+	hx.Check(t, 12000, 1200000, 45, func(rt *rapid.T) {
 		cfg := drawConfig(rt)
 		np := rapid.IntRange(2, 7).Draw(rt, "npeers")
+		auto := rapid.Bool().Draw(rt, "disconnectTrimmedAtOnce")
 		var w *world
 		hx.Bubble(t, rt, func() {
 			w = newWorld(cfg, np, rt.Fatalf)
 			defer w.close()
+			w.autoFlush = auto
 			rt.Repeat(map[string]func(*rapid.T){
 				"step": w.step,
 				"":     func(*rapid.T) { w.check() },
@@ -257,6 +263,11 @@ func TestTrimModel(t *testing.T) {
 		sort.Strings(labels)
 		fp := append([]string(nil), w.fps...)
 		sort.Strings(fp)
+		if auto {
+			labels = append(labels, "mode:trimmed-conns-disconnect-at-once")
+		} else {
+			labels = append(labels, "mode:trimmed-conns-linger")
+		}
 		stats.Case(name, strings.Join(fp, "\n"), w.nontrivial, labels...)
 		if stats.WantSample(name) {
 			tr := w.trace
